@@ -84,14 +84,28 @@ class G:
                 prev = m["bkms"][k - 2]
                 requires.append(prev["name"])
                 calls.append((prev["name"], len(prev["params"])))
-            kind = r.choice(["literal", "literal", "context", "table"])
+            kind = r.choice(["literal", "literal", "context", "table", "relation", "invocation"])
+            if kind == "invocation" and not (k > 1 and m["bkms"]):
+                kind = "literal"
             b = {"name": name, "params": params, "kind": kind, "requires": requires}
+            if kind == "invocation":
+                # encapsulated logic = boxed invocation of an earlier knowledge model with a numeric result
+                cands = [x for x in m["bkms"] if x["kind"] in ("literal", "table") or (x["kind"] == "context" and x.get("result") is not None)]
+                if cands:
+                    callee = r.choice(cands)
+                    if callee["name"] not in requires:
+                        requires.append(callee["name"])
+                    b["body"] = ("__invocation__", callee["name"], [(prm, self.num_expr(params, 1)) for prm in callee["params"]])
+                else:
+                    b["kind"] = kind = "literal"
+            if kind == "relation":
+                b["body"] = ("__relation__", ["ra", "rb"], [[self.num_expr(params, 1), self.num_expr(params, 1)] for _ in range(r.randint(1, 2))])
             if kind == "literal":
                 b["body"] = self.num_expr(params, 2, calls)
             elif kind == "context":
                 b["entries"] = [("ea", self.num_expr(params, 1, calls)), ("eb", self.num_expr(params + ["ea"], 1))]
                 b["result"] = self.num_expr(params + ["ea", "eb"], 1) if r.random() < 0.7 else None
-            else:
+            elif kind == "table":
                 b["table"] = self.table(params[0])
             m["bkms"].append(b)
         # decisions, in dependency order
@@ -164,7 +178,7 @@ class G:
                     req_bkm.append(b["name"])
                 d["callee"] = b["name"]
                 d["bindings"] = [(p, self.num_expr(nums, 1)) for p in b["params"]]
-                result_type[name] = "number" if b["kind"] != "context" or b.get("result") is not None else "context"
+                result_type[name] = "list" if b["kind"] == "relation" else "number" if b["kind"] != "context" or b.get("result") is not None else "context"
                 if b["kind"] == "table":
                     result_type[name] = "number"
             elif kind == "relation":
@@ -294,6 +308,8 @@ def to_xml(m):
             p.append(_lit(b["body"]))
         elif b["kind"] == "context":
             p.append(_context_xml(b["entries"], b["result"]))
+        elif b["kind"] in ("relation", "invocation"):
+            p.append(_expr_xml(b["body"]))
         else:
             p.append(_table_xml(b["table"]))
         p.append("</encapsulatedLogic></businessKnowledgeModel>")
@@ -421,7 +437,7 @@ class Ref:
         b = [x for x in self.m["bkms"] if x["name"] == name][0]
         # formal parameters are typed `number`: arguments are coerced (conforming -> same, singleton list of a number -> the number, else null)
         env = [{"__typed__": "number"}, {r: self.bkm(r) for r in b["requires"]}]
-        if b["kind"] == "literal":
+        if b["kind"] in ("literal", "relation", "invocation"):
             fn = rfeel.Fn(list(b["params"]), b["body"], env)
         elif b["kind"] == "context":
             entries = [(n, e) for n, e in b["entries"]]
